@@ -268,7 +268,8 @@ def gen_edit(rng, p, kinds=None, hint=None):
             if cand:
                 a = rng.choice(cand)
                 return [[k, a]] + [["importance", i, a, ci.enc(rng.choice([1.0, 0.0, 2.0]))] for i in range(len(C))]
-        if k == "modeRemove" and len(mode) > 1 and rng.random() < 0.3:
+        if k == "modeRemove" and len(mode) > 1 and kinds == ["modeRemove"]:
+            # removing a particle leaves its importances behind (known finding C03-F3): only generated alone
             return [[k, rng.choice(mode)]]
         if k == "modeSet" and rng.random() < 0.3:
             return [[k, mode]]
@@ -279,6 +280,9 @@ def gen_edit(rng, p, kinds=None, hint=None):
 
 def gen_script(rng, text, limit, n):
     """draws about n valid edits, applying each to a live problem as it goes"""
+    import warnings
+
+    warnings.simplefilter("ignore")
     with wholefile.Scratch() as sc:
         try:
             p = wholefile.read_text(text, limit, sc)
@@ -316,6 +320,14 @@ def _alarm(*a):
 
 
 def run_impl(case):
+    import warnings
+
+    with warnings.catch_warnings():
+        warnings.simplefilter("ignore")
+        return _run_impl(case)
+
+
+def _run_impl(case):
     text, limit, script = case["text"], case.get("limit", 128), case["script"]
     res = {"ok": False}
     old = signal.signal(signal.SIGALRM, _alarm)
@@ -378,7 +390,11 @@ class Touched(set):
             self.add(k)
 
 
-def _context(key, t0_blocks, A0):
+def _context(key, t0_blocks, A0, t0=None):
+    if key == ("data", "mode") and t0 is not None and not t0.get(("meta", "mode-card")):
+        return "no-mode-card"
+    if key[0] == "data" and key[1].startswith("tr") and A0 is not None:
+        return "transform-card"
     if key[0] == "cell" and len(key) == 4 and key[2] in spec.CELL_DATA:
         blocks = t0_blocks.get(key[2])
         where = "data-block" if blocks == "data" else ("cell-block" if blocks == "cell" else "not-given")
@@ -399,6 +415,8 @@ def judge(case, res, den_base, den_written):
     """first failure of C03's own statement on the real code's outputs, or None.  -> (signature, what)"""
     script = case["script"]
     A = copy.deepcopy(res["A0"])
+    if len(den_base["cells"]) != len(A["cell_number"]) or len(den_base["surfaces"]) != len(A["surf_number"]):
+        return None  # MCNP's rules and MontePy split the file into different cards: not a problem of G (C01/C11)
     t0 = ci.table(den_base)
     place = _placement(den_base)
     t_exp = dict(t0)
@@ -410,13 +428,12 @@ def judge(case, res, den_base, den_written):
         touched.cur = e[0]
         ci.abstract_apply(A, t_exp, e, touched)
     if "write_error" in res:
-        last = script[-1][0] if script else "-"
-        sig = {"mechanism": "edit", "class": "write-raises", "quantity": ci.QUANTITY_OF_OP.get(last, last), "error": res["write_error"]}
+        sig = {"mechanism": "edit", "class": "write-raises", "error": res["write_error"]}
         return sig, f"write_to_file raised {res['write_error']} after the edits", len(script)
     t1 = ci.table(den_written)
     for key in sorted(set(t_exp) | set(t1), key=str):
         a, b = t_exp.get(key), t1.get(key)
-        if key[0] == "cell" and key[-1] == "fillstar":
+        if (key[0] == "cell" and key[-1] == "fillstar") or key[0] == "meta":
             continue
         if a is None and b is None:
             continue
@@ -428,7 +445,7 @@ def judge(case, res, den_base, den_written):
         else:
             cls = "frame-broken"
             q = ".".join(str(x) for x in key if isinstance(x, str))
-        ctx = _context(key, place, A)
+        ctx = _context(key, place, A, t0)
         sig = {"mechanism": "edit", "class": cls, "quantity": q, "context": ctx}
         return sig, f"{key}: file says {_show(b)}, the edited reference says {_show(a)} (unedited: {_show(t0.get(key))})", len(script)
     return None
@@ -655,6 +672,7 @@ def run(chk):
         jobs.append((rng.getrandbits(48), text, limit, rng.randint(1, 12)))
     corpus = load_corpus()
     gen = [c for c in pmap(_gen_case, jobs) if c is not None]
+    gen += [{"text": t, "limit": 128, "script": [["modeRemove", "p"]]} for t in TINY]
     cases = corpus + gen + exhaustive_cases(chk)
     chk.units["U-setter"] = {"corpus": len(corpus), "random_scripts": len(gen), "exhaustive_single_edits": len(cases) - len(corpus) - len(gen)}
     chk.exhaustive = False
@@ -690,7 +708,7 @@ def run(chk):
             sig, what, upto = v
             chk.count("violation:" + sig["class"])
             mc, what = minimise(case, sig, what)
-            chk.violation(sig, what, {"case": mc})
+            chk.violation(full_signature(sig, mc), what, {"case": mc})
             continue
         chk.count("judged-ok")
         rm = model_of.get(i)
@@ -731,13 +749,18 @@ def minimise(case, sig, what):
         return v is not None and v[0] == sig
 
     script = shrink_list(case["script"], fails)
-    # try the same script on the tiny problems: a smaller file is a better replay
-    best = dict(case, script=script)
-    best.pop("corpus", None)
+    best = {"text": case["text"], "limit": case.get("limit", 128), "script": script}
     _, v = evaluate(best)
     if v is not None and v[0] == sig:
         what = v[1]
-    return {"text": best["text"], "limit": best.get("limit", 128), "script": best["script"]}, what
+    return best, what
+
+
+def full_signature(sig, mc):
+    """a write that raises is attributed to the first edit of the minimised script"""
+    if sig["class"] == "write-raises" and mc["script"]:
+        return dict(sig, quantity=ci.QUANTITY_OF_OP[mc["script"][0][0]])
+    return sig
 
 
 def exhaustive_cases(chk):
@@ -755,7 +778,7 @@ def exhaustive_cases(chk):
                 with wholefile.Scratch() as sc:
                     p = wholefile.read_text(text, 128, sc)
                     es = gen_edit(rng, p, [kind], hint)
-                if es is None or (kind == "modeRemove"):
+                if es is None:
                     continue
                 out.append({"text": text, "limit": 128, "script": es})
     # distinct only
@@ -781,7 +804,7 @@ def replay(chk, payload):
         chk.add_obligation("replay", True, "case skipped: " + res.get("skip", ""))
         return
     if v is not None:
-        chk.violation(v[0], v[1], {"case": case})
+        chk.violation(full_signature(v[0], case), v[1], {"case": case})
     elif drv.ok and res.get("ser"):
         rm = drv.batch([model_case(case, res)])[0]
         d = compare_model(case, res, rm)
